@@ -11,30 +11,34 @@ namespace OdlModel.OpAlgebra
 
 variable {K : Type}
 
-/-- `f (s • x) = s • f x` -/
-def Homog [Mul K] (f : Vec K → Vec K) : Prop :=
-  ∀ (s : K) (x : Vec K), f (fun j => s * x j) = fun j => s * f x j
+/-- `f (s • x) = s • f x` for the scalars `s` in `R` (`R` = the scalars the operator commutes
+with: all of `K` for a `K`-linear operator, the real ones for an only real-linear operator
+such as `RealPart` on a complex space). -/
+def Homog [Mul K] (R : K → Prop) (f : Vec K → Vec K) : Prop :=
+  ∀ (s : K), R s → ∀ (x : Vec K), f (fun j => s * x j) = fun j => s * f x j
 
 /-- `f (x + y) = f x + f y` -/
 def Additive [Add K] (f : Vec K → Vec K) : Prop :=
   ∀ x y : Vec K, f (fun j => x j + y j) = fun j => f x j + f y j
 
-/-- A linear map (over the field the tree lives on). -/
-def IsLin [Add K] [Mul K] (f : Vec K → Vec K) : Prop := Homog f ∧ Additive f
+/-- An `R`-linear map: additive and homogeneous for the scalars in `R`. -/
+def IsLin [Add K] [Mul K] (R : K → Prop) (f : Vec K → Vec K) : Prop := Homog R f ∧ Additive f
 
 /-- The value is a constant family: the encoding of a scalar (functional value). -/
 def ConstFam (f : Vec K → Vec K) : Prop := ∀ x j, f x j = f x 0
 
-/-- Assumptions on the opaque leaves of an expression: a leaf flagged `is_linear` is a
-linear map, a leaf that is a `Functional` returns a scalar (constant family). Nothing is
-assumed about unflagged leaves. -/
-def EnvOK [Add K] [Mul K] (env : Nat → Vec K → Vec K) : Expr K → Prop
-  | .leaf i => (i.lin = true → IsLin (env i.id)) ∧ (i.fn = true → ConstFam (env i.id))
-  | .neg a => EnvOK env a
-  | .pow a _ => EnvOK env a
-  | .bin _ a b => EnvOK env a ∧ EnvOK env b
-  | .sc _ a _ => EnvOK env a
-  | .vc _ a _ => EnvOK env a
+/-- Assumptions on the opaque leaves of an expression and on its `real` marks: a leaf flagged
+`is_linear` is an `R`-linear map, a leaf that is a `Functional` returns a scalar (constant
+family), and a scalar `s` marked `real` (`isinstance(s, Real)`) is in `R`, with `1/s`.  Nothing is assumed
+about unflagged leaves.  Take `R = fun _ => True` when every flagged leaf is linear over the
+field of the tree, `R = "is real"` when some are only real-linear. -/
+def EnvOK [Add K] [Mul K] [Div K] [OfNat K 1] (R : K → Prop) (env : Nat → Vec K → Vec K) : Expr K → Prop
+  | .leaf i => (i.lin = true → IsLin R (env i.id)) ∧ (i.fn = true → ConstFam (env i.id))
+  | .neg a => EnvOK R env a
+  | .pow a _ => EnvOK R env a
+  | .bin _ a b => EnvOK R env a ∧ EnvOK R env b
+  | .sc _ a s re => EnvOK R env a ∧ (re = true → R s ∧ R (1 / s))
+  | .vc _ a _ => EnvOK R env a
 
 /-- Leaves that are `Functional`s have the field as range (`Functional.__init__`). -/
 def LeavesWf : Expr K → Prop
@@ -42,7 +46,7 @@ def LeavesWf : Expr K → Prop
   | .neg a => LeavesWf a
   | .pow a _ => LeavesWf a
   | .bin _ a b => LeavesWf a ∧ LeavesWf b
-  | .sc _ a _ => LeavesWf a
+  | .sc _ a _ _ => LeavesWf a
   | .vc _ a _ => LeavesWf a
 
 /-! #### attribute equations of the constructors (`rfl`), used instead of unfolding -/
@@ -114,11 +118,11 @@ end attr
 variable [Field K] [DecidableEq K]
 
 /-- Invariant of every object the dispatch produces. -/
-def Inv (env : Nat → Vec K → Vec K) (i : Impl K) : Prop :=
-  (i.isFn = true → ConstFam (run env i)) ∧ (i.lin = true → IsLin (run env i))
+def Inv (R : K → Prop) (env : Nat → Vec K → Vec K) (i : Impl K) : Prop :=
+  (i.isFn = true → ConstFam (run env i)) ∧ (i.lin = true → IsLin R (run env i))
 
 section run_lemmas
-variable (env : Nat → Vec K → Vec K)
+variable {R : K → Prop} (env : Nat → Vec K → Vec K)
 
 omit [DecidableEq K] in
 theorem run_mkLScal (fn : Bool) (a : Impl K) (s : K) (x : Vec K) :
@@ -191,17 +195,17 @@ theorem lin_opRMulScal (a : Impl K) (s : K) (h : (opRMulScal s a).lin = true) :
   · rw [lin_mkLScal] at h; exact Or.inl h
 
 omit [DecidableEq K] in
-theorem isLin_smul {f : Vec K → Vec K} (s : K) (h : IsLin f) :
-    IsLin (fun x j => s * f x j) := by
-  refine ⟨fun t x => ?_, fun x y => ?_⟩
-  · funext j; simp only [h.1 t x]; ring
+theorem isLin_smul {f : Vec K → Vec K} (s : K) (h : IsLin R f) :
+    IsLin R (fun x j => s * f x j) := by
+  refine ⟨fun t ht x => ?_, fun x y => ?_⟩
+  · funext j; simp only [h.1 t ht x]; ring
   · funext j; simp only [h.2 x y]; ring
 
 omit [DecidableEq K] in
-theorem isLin_zero_smul (f : Vec K → Vec K) : IsLin (fun x j => (0 : K) * f x j) := by
-  refine ⟨fun t x => ?_, fun x y => ?_⟩ <;> funext j <;> simp
+theorem isLin_zero_smul (f : Vec K → Vec K) : IsLin R (fun x j => (0 : K) * f x j) := by
+  refine ⟨fun t ht x => ?_, fun x y => ?_⟩ <;> funext j <;> simp
 
-theorem inv_opRMulScal {a : Impl K} (s : K) (ha : Inv env a) : Inv env (opRMulScal s a) := by
+theorem inv_opRMulScal {a : Impl K} (s : K) (ha : Inv R env a) : Inv R env (opRMulScal s a) := by
   constructor
   · intro h
     rw [isFn_opRMulScal] at h
@@ -224,16 +228,19 @@ theorem rscalParts_some {a a' : Impl K} {t : K} (h : rscalParts a = some (a', t)
   obtain ⟨rfl, rfl⟩ := h
   exact ⟨_, rfl⟩
 
-theorem run_opMulScal {a : Impl K} (s : K) (ha : Inv env a) (x : Vec K) :
-    run env (opMulScal env a s) x = run env a (fun j => s * x j) := by
+theorem run_opMulScal {a : Impl K} (s : K) (re : Bool) (hre : re = true → R s)
+    (ha : Inv R env a) (x : Vec K) :
+    run env (opMulScal env a s re) x = run env a (fun j => s * x j) := by
   unfold opMulScal
   by_cases h1 : a.isFn = true
   · rw [if_pos h1]
     by_cases h2 : s = 0
     · subst h2; simp [run]
     · rw [if_neg h2]
-      by_cases h3 : a.lin = true
-      · rw [if_pos h3, run_mkLScal, (ha.2 h3).1 s x]
+      by_cases h3 : (a.lin && re) = true
+      · rw [if_pos h3]
+        simp only [Bool.and_eq_true] at h3
+        rw [run_mkLScal, (ha.2 h3.1).1 s (hre h3.2) x]
       · rw [if_neg h3]; exact run_mkRScal ..
   · rw [if_neg h1]
     cases hp : rscalParts a with
@@ -244,18 +251,21 @@ theorem run_opMulScal {a : Impl K} (s : K) (ha : Inv env a) (x : Vec K) :
       congr 1; funext j; ring
     | none =>
       simp only
-      by_cases h4 : a.lin = true
-      · rw [if_pos h4, run_opRMulScal, (ha.2 h4).1 s x]
+      by_cases h4 : (a.lin && re) = true
+      · rw [if_pos h4]
+        simp only [Bool.and_eq_true] at h4
+        rw [run_opRMulScal, (ha.2 h4.1).1 s (hre h4.2) x]
       · rw [if_neg h4]; exact run_mkRScal ..
 
-theorem isFn_opMulScal (a : Impl K) (s : K) : (opMulScal env a s).isFn = a.isFn := by
+theorem isFn_opMulScal (a : Impl K) (s : K) (re : Bool) :
+    (opMulScal env a s re).isFn = a.isFn := by
   unfold opMulScal
   by_cases h1 : a.isFn = true
   · rw [if_pos h1]
     by_cases h2 : s = 0
     · rw [if_pos h2, h1]; rfl
     · rw [if_neg h2]
-      by_cases h3 : a.lin = true
+      by_cases h3 : (a.lin && re) = true
       · rw [if_pos h3, isFn_mkLScal, h1]
       · rw [if_neg h3, isFn_mkRScal, h1]
   · rw [if_neg h1]
@@ -264,18 +274,19 @@ theorem isFn_opMulScal (a : Impl K) (s : K) : (opMulScal env a s).isFn = a.isFn 
     | some p => simp only [isFn_mkRScal, h1']
     | none =>
       simp only
-      by_cases h4 : a.lin = true
+      by_cases h4 : (a.lin && re) = true
       · rw [if_pos h4]; exact isFn_opRMulScal a s
       · rw [if_neg h4, isFn_mkRScal, h1']
 
-theorem dom_opMulScal (a : Impl K) (s : K) : (opMulScal env a s).dom = a.dom := by
+theorem dom_opMulScal (a : Impl K) (s : K) (re : Bool) :
+    (opMulScal env a s re).dom = a.dom := by
   unfold opMulScal
   by_cases h1 : a.isFn = true
   · rw [if_pos h1]
     by_cases h2 : s = 0
     · rw [if_pos h2]; rfl
     · rw [if_neg h2]
-      by_cases h3 : a.lin = true
+      by_cases h3 : (a.lin && re) = true
       · rw [if_pos h3, dom_mkLScal]
       · rw [if_neg h3, dom_mkRScal]
   · rw [if_neg h1]
@@ -286,13 +297,13 @@ theorem dom_opMulScal (a : Impl K) (s : K) : (opMulScal env a s).dom = a.dom := 
       simp only [dom_mkRScal]; rfl
     | none =>
       simp only
-      by_cases h4 : a.lin = true
+      by_cases h4 : (a.lin && re) = true
       · rw [if_pos h4]; exact dom_opRMulScal a s
       · rw [if_neg h4]; exact dom_mkRScal ..
 
 /-- The flag of `a * s` is set only if `a` was flagged, or by the `f * 0 ↦ Constant(f(0))`
 shortcut with `f(0) = 0`. -/
-theorem lin_opMulScal (a : Impl K) (s : K) (h : (opMulScal env a s).lin = true) :
+theorem lin_opMulScal (a : Impl K) (s : K) (re : Bool) (h : (opMulScal env a s re).lin = true) :
     a.lin = true ∨ (a.isFn = true ∧ s = 0 ∧ run env a (fun _ => 0) 0 = 0) := by
   unfold opMulScal at h
   by_cases h1 : a.isFn = true
@@ -301,8 +312,8 @@ theorem lin_opMulScal (a : Impl K) (s : K) (h : (opMulScal env a s).lin = true) 
     · rw [if_pos h2] at h
       right; exact ⟨h1, h2, by simpa [Impl.lin] using h⟩
     · rw [if_neg h2] at h
-      by_cases h3 : a.lin = true
-      · exact Or.inl h3
+      by_cases h3 : (a.lin && re) = true
+      · simp only [Bool.and_eq_true] at h3; exact Or.inl h3.1
       · rw [if_neg h3, lin_mkRScal] at h; exact Or.inl h
   · rw [if_neg h1] at h
     left
@@ -315,17 +326,18 @@ theorem lin_opMulScal (a : Impl K) (s : K) (h : (opMulScal env a s).lin = true) 
     | none =>
       rw [hp] at h
       simp only at h
-      by_cases h4 : a.lin = true
-      · exact h4
+      by_cases h4 : (a.lin && re) = true
+      · simp only [Bool.and_eq_true] at h4; exact h4.1
       · rw [if_neg h4, lin_mkRScal] at h; exact h
 
 omit [DecidableEq K] in
-theorem isLin_zero : IsLin (fun (_ : Vec K) (_ : Nat) => (0 : K)) := by
-  refine ⟨fun t x => ?_, fun x y => ?_⟩ <;> funext j <;> simp
+theorem isLin_zero : IsLin R (fun (_ : Vec K) (_ : Nat) => (0 : K)) := by
+  refine ⟨fun t ht x => ?_, fun x y => ?_⟩ <;> funext j <;> simp
 
-theorem inv_opMulScal {a : Impl K} (s : K) (ha : Inv env a) : Inv env (opMulScal env a s) := by
-  have hrun : run env (opMulScal env a s) = fun x => run env a (fun j => s * x j) := by
-    funext x; exact run_opMulScal env s ha x
+theorem inv_opMulScal {a : Impl K} (s : K) (re : Bool) (hre : re = true → R s)
+    (ha : Inv R env a) : Inv R env (opMulScal env a s re) := by
+  have hrun : run env (opMulScal env a s re) = fun x => run env a (fun j => s * x j) := by
+    funext x; exact run_opMulScal env s re hre ha x
   constructor
   · intro h
     rw [isFn_opMulScal] at h
@@ -333,11 +345,11 @@ theorem inv_opMulScal {a : Impl K} (s : K) (ha : Inv env a) : Inv env (opMulScal
     rw [hrun]; exact ha.1 h _ j
   · intro h
     rw [hrun]
-    rcases lin_opMulScal env a s h with h | ⟨hf, hs, h0⟩
+    rcases lin_opMulScal env a s re h with h | ⟨hf, hs, h0⟩
     · have hl := ha.2 h
-      refine ⟨fun t x => ?_, fun x y => ?_⟩
+      refine ⟨fun t ht x => ?_, fun x y => ?_⟩
       · have : (fun j => s * (t * x j)) = fun j => t * (s * x j) := by funext j; ring
-        simp only [this, hl.1 t]
+        simp only [this, hl.1 t ht]
       · have : (fun j => s * (x j + y j)) = fun j => s * x j + s * y j := by funext j; ring
         show run env a (fun j => s * (x j + y j)) = _
         rw [this]; exact hl.2 _ _
@@ -358,8 +370,8 @@ theorem run_mkSum {a b c : Impl K} (h : mkSum a b = some c) (x : Vec K) :
   split_ifs at h
   cases h; rfl
 
-theorem inv_mkSum {a b c : Impl K} (h : mkSum a b = some c) (ha : Inv env a) (hb : Inv env b) :
-    Inv env c := by
+theorem inv_mkSum {a b c : Impl K} (h : mkSum a b = some c) (ha : Inv R env a) (hb : Inv R env b) :
+    Inv R env c := by
   unfold mkSum at h
   split_ifs at h
   cases h
@@ -371,8 +383,8 @@ theorem inv_mkSum {a b c : Impl K} (h : mkSum a b = some c) (ha : Inv env a) (hb
   · intro hl
     simp only [Impl.lin, Bool.and_eq_true] at hl
     have h1 := ha.2 hl.1; have h2 := hb.2 hl.2
-    refine ⟨fun t x => ?_, fun x y => ?_⟩
-    · funext j; simp only [run, h1.1 t x, h2.1 t x]; ring
+    refine ⟨fun t ht x => ?_, fun x y => ?_⟩
+    · funext j; simp only [run, h1.1 t ht x, h2.1 t ht x]; ring
     · funext j; simp only [run, h1.2 x y, h2.2 x y]; ring
 
 omit [DecidableEq K] in
@@ -383,15 +395,15 @@ theorem run_opAdd {a b c : Impl K} (h : opAdd a b = some c) (x : Vec K) :
   · rw [run_mkSum env h]; funext j; ring
   · exact run_mkSum env h x
 
-theorem inv_opAdd {a b c : Impl K} (h : opAdd a b = some c) (ha : Inv env a) (hb : Inv env b) :
-    Inv env c := by
+theorem inv_opAdd {a b c : Impl K} (h : opAdd a b = some c) (ha : Inv R env a) (hb : Inv R env b) :
+    Inv R env c := by
   unfold opAdd at h
   split_ifs at h
   · exact inv_mkSum env h hb ha
   · exact inv_mkSum env h ha hb
 
-theorem inv_opMul {a b c : Impl K} (h : opMul a b = some c) (ha : Inv env a) (hb : Inv env b) :
-    Inv env c := by
+theorem inv_opMul {a b c : Impl K} (h : opMul a b = some c) (ha : Inv R env a) (hb : Inv R env b) :
+    Inv R env c := by
   unfold opMul at h
   split_ifs at h
   cases h
@@ -403,12 +415,12 @@ theorem inv_opMul {a b c : Impl K} (h : opMul a b = some c) (ha : Inv env a) (hb
   · intro hl
     simp only [Impl.lin, Bool.and_eq_true] at hl
     have h1 := ha.2 hl.1; have h2 := hb.2 hl.2
-    refine ⟨fun t x => ?_, fun x y => ?_⟩
-    · simp only [run, h2.1 t x, h1.1 t]
+    refine ⟨fun t ht x => ?_, fun x y => ?_⟩
+    · simp only [run, h2.1 t ht x, h1.1 t ht]
     · simp only [run, h2.2 x y]; exact h1.2 _ _
 
-theorem inv_opMulVec {a c : Impl K} {v : VecLit K} (h : opMulVec a v = some c) (ha : Inv env a) :
-    Inv env c := by
+theorem inv_opMulVec {a c : Impl K} {v : VecLit K} (h : opMulVec a v = some c) (ha : Inv R env a) :
+    Inv R env c := by
   unfold opMulVec at h
   split_ifs at h
   cases h
@@ -420,39 +432,39 @@ theorem inv_opMulVec {a c : Impl K} {v : VecLit K} (h : opMulVec a v = some c) (
   · intro hl
     simp only [Impl.lin] at hl
     have h1 := ha.2 hl
-    refine ⟨fun t x => ?_, fun x y => ?_⟩
+    refine ⟨fun t ht x => ?_, fun x y => ?_⟩
     · have : (fun j => t * x j * v.val j) = fun j => t * (x j * v.val j) := by funext j; ring
-      simp only [run, this, h1.1 t]
+      simp only [run, this, h1.1 t ht]
     · have : (fun j => (x j + y j) * v.val j) = fun j => x j * v.val j + y j * v.val j := by
         funext j; ring
       simp only [run, this]; exact h1.2 _ _
 
-theorem inv_opRMulVec {a c : Impl K} {v : VecLit K} (h : opRMulVec v a = some c) (ha : Inv env a) :
-    Inv env c := by
+theorem inv_opRMulVec {a c : Impl K} {v : VecLit K} (h : opRMulVec v a = some c) (ha : Inv R env a) :
+    Inv R env c := by
   unfold opRMulVec at h
   split_ifs at h <;> cases h
   · refine ⟨fun hf => by simp [Impl.isFn] at hf, fun hl => ?_⟩
     simp only [Impl.lin] at hl
     have h1 := ha.2 hl
-    refine ⟨fun t x => ?_, fun x y => ?_⟩
-    · funext j; simp only [run, h1.1 t x]; ring
+    refine ⟨fun t ht x => ?_, fun x y => ?_⟩
+    · funext j; simp only [run, h1.1 t ht x]; ring
     · funext j; simp only [run, h1.2 x y]; ring
   · refine ⟨fun hf => by simp [Impl.isFn] at hf, fun hl => ?_⟩
     simp only [Impl.lin] at hl
     have h1 := ha.2 hl
-    refine ⟨fun t x => ?_, fun x y => ?_⟩
-    · funext j; simp only [run, h1.1 t x]; ring
+    refine ⟨fun t ht x => ?_, fun x y => ?_⟩
+    · funext j; simp only [run, h1.1 t ht x]; ring
     · funext j; simp only [run, h1.2 x y]; ring
 
 theorem inv_opAddVec {a c : Impl K} {v : Vec K} {n : Nat} (h : opAddVec a v n = some c) :
-    Inv env c := by
+    Inv R env c := by
   unfold opAddVec at h
   split_ifs at h
   cases h
   exact ⟨fun hf => by simp [Impl.isFn] at hf, fun hl => by simp [Impl.lin] at hl⟩
 
-theorem inv_opAddScal {a c : Impl K} {s : K} (h : opAddScal a s = some c) (ha : Inv env a) :
-    Inv env c := by
+theorem inv_opAddScal {a c : Impl K} {s : K} (h : opAddScal a s = some c) (ha : Inv R env a) :
+    Inv R env c := by
   unfold opAddScal at h
   split_ifs at h with hf
   · cases h
@@ -463,8 +475,8 @@ theorem inv_opAddScal {a c : Impl K} {s : K} (h : opAddScal a s = some c) (ha : 
       simp only [Impl.lin, Bool.and_eq_true, decide_eq_true_eq] at hl
       obtain ⟨hl, rfl⟩ := hl
       have h1 := ha.2 hl
-      refine ⟨fun t x => ?_, fun x y => ?_⟩
-      · funext j; simp only [run, h1.1 t x]; ring
+      refine ⟨fun t ht x => ?_, fun x y => ?_⟩
+      · funext j; simp only [run, h1.1 t ht x]; ring
       · funext j; simp only [run, h1.2 x y]; ring
   · cases hr : a.ran <;> rw [hr] at h <;> simp only at h
     · cases h
@@ -484,15 +496,15 @@ theorem lin_powAux (a : Impl K) (k : Nat) : (powAux a k).lin = a.lin := by
   | succ k ih => simp [powAux, Impl.lin, ih]
 
 omit [DecidableEq K] in
-theorem isLin_iter {f : Vec K → Vec K} (h : IsLin f) (n : Nat) : IsLin (iter f n) := by
+theorem isLin_iter {f : Vec K → Vec K} (h : IsLin R f) (n : Nat) : IsLin R (iter f n) := by
   induction n with
-  | zero => exact ⟨fun _ _ => rfl, fun _ _ => rfl⟩
+  | zero => exact ⟨fun _ _ _ => rfl, fun _ _ => rfl⟩
   | succ n ih =>
-    refine ⟨fun t x => ?_, fun x y => ?_⟩
-    · simp only [iter, ih.1 t x, h.1 t]
+    refine ⟨fun t ht x => ?_, fun x y => ?_⟩
+    · simp only [iter, ih.1 t ht x, h.1 t ht]
     · simp only [iter, ih.2 x y]; exact h.2 _ _
 
-theorem inv_powAux {a : Impl K} (ha : Inv env a) (k : Nat) : Inv env (powAux a (k + 1)) := by
+theorem inv_powAux {a : Impl K} (ha : Inv R env a) (k : Nat) : Inv R env (powAux a (k + 1)) := by
   constructor
   · intro hf; simp [powAux, Impl.isFn] at hf
   · intro hl
@@ -502,8 +514,8 @@ theorem inv_powAux {a : Impl K} (ha : Inv env a) (k : Nat) : Inv env (powAux a (
     rw [this]
     exact isLin_iter (ha.2 hl) _
 
-theorem inv_mkPProd {a b c : Impl K} (h : mkPProd a b = some c) (ha : Inv env a)
-    (hb : Inv env b) : Inv env c := by
+theorem inv_mkPProd {a b c : Impl K} (h : mkPProd a b = some c) (ha : Inv R env a)
+    (hb : Inv R env b) : Inv R env c := by
   unfold mkPProd at h
   split_ifs at h
   cases h
@@ -514,8 +526,8 @@ theorem inv_mkPProd {a b c : Impl K} (h : mkPProd a b = some c) (ha : Inv env a)
     simp only [run, ha.1 hf.1 x j, hb.1 hf.2 x j]
   · intro hl; simp [Impl.lin] at hl
 
-theorem inv_mkQuot {a b c : Impl K} (h : mkQuot a b = some c) (ha : Inv env a)
-    (hb : Inv env b) : Inv env c := by
+theorem inv_mkQuot {a b c : Impl K} (h : mkQuot a b = some c) (ha : Inv R env a)
+    (hb : Inv R env b) : Inv R env c := by
   unfold mkQuot at h
   split_ifs at h with hh
   cases h
@@ -615,15 +627,15 @@ theorem ran_opRMulScal (a : Impl K) (s : K) (h : FnRan a) : (opRMulScal s a).ran
 theorem ty_opRMulScal (a : Impl K) (s : K) (h : FnRan a) : (opRMulScal s a).ty = a.ty := by
   simp only [Impl.ty, dom_opRMulScal, ran_opRMulScal a s h, isFn_opRMulScal]
 
-theorem ran_opMulScal (env : Nat → Vec K → Vec K) (a : Impl K) (s : K) (h : FnRan a) :
-    (opMulScal env a s).ran = a.ran := by
+theorem ran_opMulScal (env : Nat → Vec K → Vec K) (a : Impl K) (s : K) (re : Bool)
+    (h : FnRan a) : (opMulScal env a s re).ran = a.ran := by
   unfold opMulScal
   by_cases h1 : a.isFn = true
   · rw [if_pos h1]
     by_cases h2 : s = 0
     · rw [if_pos h2, h h1]; rfl
     · rw [if_neg h2]
-      by_cases h3 : a.lin = true
+      by_cases h3 : (a.lin && re) = true
       · rw [if_pos h3, ran_mkLScal]
       · rw [if_neg h3, ran_mkRScal]
   · rw [if_neg h1]
@@ -634,13 +646,13 @@ theorem ran_opMulScal (env : Nat → Vec K → Vec K) (a : Impl K) (s : K) (h : 
       simp only [ran_mkRScal]; rfl
     | none =>
       simp only
-      by_cases h4 : a.lin = true
+      by_cases h4 : (a.lin && re) = true
       · rw [if_pos h4]; exact ran_opRMulScal a s h
       · rw [if_neg h4]; exact ran_mkRScal ..
 
-theorem ty_opMulScal (env : Nat → Vec K → Vec K) (a : Impl K) (s : K) (h : FnRan a) :
-    (opMulScal env a s).ty = a.ty := by
-  simp only [Impl.ty, dom_opMulScal, ran_opMulScal env a s h, isFn_opMulScal]
+theorem ty_opMulScal (env : Nat → Vec K → Vec K) (a : Impl K) (s : K) (re : Bool)
+    (h : FnRan a) : (opMulScal env a s re).ty = a.ty := by
+  simp only [Impl.ty, dom_opMulScal, ran_opMulScal env a s re h, isFn_opMulScal]
 
 omit [Field K] [DecidableEq K] in
 theorem fnRan_of_ty {a b : Impl K} (h : b.ty = a.ty) (ha : FnRan a) : FnRan b := by
@@ -708,19 +720,26 @@ theorem lin_opRMulScal_of (a : Impl K) (s : K) (h : a.lin = true) : (opRMulScal 
   · rw [lin_mkLScal]; exact h
   · rw [lin_mkLScal]; exact h
 
-theorem lin_opMulScal_of (env : Nat → Vec K → Vec K) {a : Impl K} (s : K) (ha : Inv env a)
-    (h : a.lin = true) : (opMulScal env a s).lin = true := by
+theorem lin_opMulScal_of {R : K → Prop} (env : Nat → Vec K → Vec K) {a : Impl K} (s : K)
+    (re : Bool) (ha : Inv R env a) (h : a.lin = true) : (opMulScal env a s re).lin = true := by
   unfold opMulScal
   by_cases h1 : a.isFn = true
   · rw [if_pos h1]
     by_cases h2 : s = 0
     · rw [if_pos h2]
-      have := (ha.2 h).1 0 (fun _ => 0)
-      have h0 : (fun j : Nat => (0 : K) * (fun _ => (0 : K)) j) = fun _ => 0 := by funext j; simp
-      rw [h0] at this
-      have h3 : run env a (fun _ => 0) 0 = 0 := by rw [this]; simp
+      -- an additive map sends 0 to 0
+      have hadd := (ha.2 h).2 (fun _ => 0) (fun _ => 0)
+      have h0 : (fun j : Nat => ((fun _ => (0 : K)) j + (fun _ => (0 : K)) j)) = fun _ => 0 := by
+        funext j; simp
+      rw [h0] at hadd
+      have h3 : run env a (fun _ => 0) 0 = 0 := by
+        have := congrFun hadd 0
+        simpa using this
       simp only [Impl.lin_const, h3, decide_true]
-    · rw [if_neg h2, if_pos h, lin_mkLScal]; exact h
+    · rw [if_neg h2]
+      by_cases h3 : (a.lin && re) = true
+      · rw [if_pos h3, lin_mkLScal]; exact h
+      · rw [if_neg h3, lin_mkRScal]; exact h
   · rw [if_neg h1]
     cases hp : rscalParts a with
     | some p =>
@@ -729,7 +748,9 @@ theorem lin_opMulScal_of (env : Nat → Vec K → Vec K) {a : Impl K} (s : K) (h
       simp only [lin_mkRScal]; simpa using h
     | none =>
       simp only
-      rw [if_pos h]; exact lin_opRMulScal_of a s h
+      by_cases h4 : (a.lin && re) = true
+      · rw [if_pos h4]; exact lin_opRMulScal_of a s h
+      · rw [if_neg h4, lin_mkRScal]; exact h
 
 theorem lin_opAdd {a b c : Impl K} (h : opAdd a b = some c) : c.lin = (a.lin && b.lin) := by
   unfold opAdd mkSum at h
